@@ -9,3 +9,10 @@ MUTANTS={
  "C14b_weight_tryfrom": (F, "                        Some(v) => match v {\n                            -1 => None,\n                            _ => Some(v.unsigned_abs()),\n                        },", "                        Some(v) => NonNegativeInteger::try_from(v).ok(),", "weightValue: every negative dropped"),
  "C14c_callsite_guard": (FT, "if meta.format_version == FormatVersion::V1 && lib_path.exists() {", "if meta.format_version == FormatVersion::V1\n            && (lib.contains_key(\"org.robofab.postScriptHintData\")\n                || lib.contains_key(\"org.robofab.opentype.features\"))\n        {", "robofab conversion only when the lib holds hint data or features"),
 }
+import os
+if os.environ.get("MUT_SET")=="legacy":
+    GENS=["C13"]
+    MUTANTS={k:v for k,v in MUTANTS.items() if k=="C13b_hint_novalidate"}
+    MUTANTS["v2_novalidate"]=(F, "                fontinfo.validate().map_err(FontInfoLoadError::FontInfoUpconversion)?;\n                Ok(fontinfo)\n            }\n            FormatVersion::V1", "                Ok(fontinfo)\n            }\n            FormatVersion::V1", "validation after the format-2 conversion skipped")
+if os.environ.get("MUT_SET")=="final":
+    MUTANTS["kind_swapped"]=(F, "return Err(FontInfoErrorKind::DisallowedSelectionBits);", "return Err(FontInfoErrorKind::InvalidOs2FamilyClass);", "selection-bit refusal reported under the family-class kind")
